@@ -88,9 +88,20 @@ class FormulaParser(Parser):
             # a blank operand contributes nothing
             left = '' if p[1] is None else p[1]
             right = '' if p[3] is None else p[3]
-            p[0] = str(left) + str(right)
+            p[0] = self.spell(left) + self.spell(right)
         else:
             p[0] = operators.evaluate_arithmetic(p[2], p[1], p[3])
+
+    @staticmethod
+    def spell(value):
+        """
+        The text an operand of & contributes. A whole number is spelled by its
+        digits also when it is held as a float - every result of a division
+        is: (6/3)&1 was "2.01".
+        """
+        if isinstance(value, float) and value == int(value) and abs(value) < 1e15:
+            return str(int(value))
+        return str(value)
 
     def p_expression_logical_operator(self, p):
         """
